@@ -188,6 +188,17 @@ fn tls_many(t: &mut Tape, obs: &mut Obs) -> R {
             2 => MRecord { ctype: 0x17, version: 0x0301, msgs: vec![MMsg::AppData(vec![k as u8; k % 5])], padding: vec![] },
             _ => MRecord { ctype: 0x16, version: 0x0303, msgs: vec![MMsg::Hs(MHs::ServerDone(vec![]))], padding: vec![] },
         }).collect())
+    } else if t.chance(10) {
+        // a long run of one and the same record (empty application data - legal, RFC 5246 6.2.1 - among them): counters of "consecutive
+        // empty / identical records", de-duplication and flood guards only show on runs
+        let n = t.pick(&[2usize, 33, 200, 201, 202, 256, 1000, 5000]);
+        let r = match t.below(5) {
+            0 | 1 => MRecord { ctype: 0x17, version: 0x0303, msgs: vec![MMsg::AppData(vec![])], padding: vec![] },
+            2 => MRecord { ctype: 0x17, version: 0x0303, msgs: vec![MMsg::AppData(vec![0x61])], padding: vec![] },
+            3 => MRecord { ctype: 0x14, version: 0x0303, msgs: vec![MMsg::Ccs], padding: vec![] },
+            _ => MRecord { ctype: 0x15, version: 0x0303, msgs: vec![MMsg::Alert(1, 0)], padding: vec![] },
+        };
+        (n, vec![r; n])
     } else {
         let n = t.below(9);
         (n, (0..n).map(|_| gen_record(t)).collect())
